@@ -118,8 +118,24 @@ def run(ctx):
     #     through ONE filter instance as a single concatenated stream and compared with the machine on that stream
     ctx.rng.shuffle(pool)
     long_traces = []
-    for i in range(0, min(len(pool), 16000 if ctx.quick else 200000), 40):
-        cat = [t for rec_inp in pool[i:i + 40] for t in rec_inp]
+    # chunks are built per tag: streams that contain the same start/end tag are concatenated, so that one filter instance
+    # meets the same tag with many different neighbours (a memo or other hidden state keyed too coarsely shows here)
+    groups = {}
+    for rec_inp in pool:
+        for t in rec_inp:
+            if t["t"] in ("StartTag", "EndTag"):
+                g = groups.setdefault((t["t"], tuple(t["n"])), [])
+                if len(g) < (320 if ctx.quick else 2000):
+                    g.append(rec_inp)
+    chunks = []
+    for key in sorted(groups):
+        g = groups[key]
+        for i in range(0, len(g), 40):
+            chunks.append(g[i:i + 40])
+    for i in range(0, min(len(pool), 4000 if ctx.quick else 100000), 40):
+        chunks.append(pool[i:i + 40])
+    for ch in chunks:
+        cat = [t for rec_inp in ch for t in rec_inp]
         inp_real = [tok.unproj_token(t) for t in cat]
         out = [tok.proj_token(t) for t in real_filter(inp_real)]
         long_traces.append({"inp": cat, "out": out, "judge": False})
